@@ -225,7 +225,8 @@ func ToCommandLine(wf WireFormat, resolveIds bool) (rule string, err error) {
 		for idx, syscallID := range r.syscalls {
 			list[idx], ok = syscallTable[int(syscallID)]
 			if !ok {
-				return "", fmt.Errorf("syscall %d not found for arch %s", syscallID, arch)
+				// Rules can be added by number, list those by number.
+				list[idx] = strconv.FormatUint(uint64(syscallID), 10)
 			}
 		}
 
